@@ -36,6 +36,14 @@
 (* Every verify step is an HONEST one: the buffer holds, at the time of the    *)
 (* call, exactly the session the item was proved under.                        *)
 (*                                                                             *)
+(* The remote verifier.  Prover and verifier of one history share a process,   *)
+(* hence hidden state: a prover whose challenge is derived under a stale       *)
+(* session is consistently wrong together with its local verifier.  At the end *)
+(* of a history every item is therefore also handed - wire parts, statement    *)
+(* and session restored from bytes into objects of their own, every handle     *)
+(* obtained anew - to a verifier in ANOTHER process (hidden state of its own,  *)
+(* empty at first), in the order of the items (Remote).                        *)
+(*                                                                             *)
 (* Variants.  lib[v] is the hidden state of library variant v, all variants    *)
 (* run side by side on the same history.  "code" is the code as read: no       *)
 (* hidden state, a call depends on the current values only, so every verify    *)
@@ -57,7 +65,7 @@
 (* step: that binds the memory model to Go's semantics (self test).            *)
 (*                                                                             *)
 (* Named deviations: sessions are short sequences over {1, 2}; the harness     *)
-(* widens every element to a block of W bytes (W = 1, 16, 800), so <<1,1>> and *)
+(* widens every element to a block of W bytes (W = 1, 16, 33, 800), so <<1,1>> and *)
 (* <<1,2>> are ssid||1 and ssid||2.  The prover's calls do not feed the "stmt" *)
 (* cache.  An in-place write of equal content is the buffer re-used as it is.  *)
 
@@ -75,9 +83,9 @@ CONSTANTS
   TwoPhase,     \* choose the shape of the next call first, then its operands (keeps -simulate cheap and spreads it evenly over the shapes)
   EmitMode      \* "all": print every finished history; "directed": print the histories whose last step is their only exposing one; "none"
 
-VARIABLES heap, buf, items, lib, hist, kinds, done, pend
+VARIABLES heap, buf, items, lib, hist, kinds, done, pend, rem
 
-vars == <<heap, buf, items, lib, hist, kinds, done, pend>>
+vars == <<heap, buf, items, lib, hist, kinds, done, pend, rem>>
 
 Bufs == 1..NBufs
 TagVariants == {"alias", "ident", "prefix"}
@@ -117,8 +125,21 @@ AllocOf(bb)   == [x \in Bufs |-> bb[x] # 0]
 
 Init ==
   /\ heap = <<>> /\ buf = [b \in Bufs |-> 0] /\ items = <<>> /\ hist = <<>> /\ done = FALSE /\ pend = NoPend
+  /\ rem = [st |-> [v \in Variants |-> NoLib], heap |-> <<>>, out |-> <<>>]
   /\ lib = [v \in Variants |-> NoLib]
   /\ kinds \in [1..NKinds -> KindChoices]
+
+(* the remote verifier (another process) receives item it: a buffer of its own, never rewritten; *)
+(* statement and proof restored from bytes, every handle obtained anew                          *)
+RemoteStep(r, it) ==
+  LET h  == Append(r.heap, it.sess)
+      a  == Len(h)
+      tg == kinds[it.kind].tg
+      o  == [v \in Variants |->
+               IF /\ (tg => TagUsed(v, r.st[v], a, h) = it.bound[v])
+                  /\ (v = "hcmp" => kinds[it.kind].cv = "single")
+               THEN "acc" ELSE "rej"]
+  IN  [st |-> [v \in Variants |-> IF tg THEN TagNext(v, r.st[v], a, h) ELSE r.st[v]], heap |-> h, out |-> Append(r.out, o)]
 
 Prove(k, b, s, how) ==
   /\ CanPrep(b, s, how)
@@ -128,7 +149,7 @@ Prove(k, b, s, how) ==
          tg == kinds[k].tg
          it == [kind |-> k, sess |-> s, bound |-> [v \in Variants |-> IF tg THEN TagUsed(v, lib[v], a, h) ELSE s]]
      IN /\ heap' = h /\ buf' = bb
-        /\ items' = Append(items, it)
+        /\ items' = Append(items, it) /\ rem' = RemoteStep(rem, it)
         /\ lib' = [v \in Variants |-> IF tg THEN TagNext(v, lib[v], a, h) ELSE lib[v]]
         /\ hist' = Append(hist, [op |-> "prove", item |-> Len(items) + 1, kind |-> k, buf |-> b, how |-> how, sess |-> s,
                                  stm |-> "own", hd |-> "mem", mem |-> MemOf(h, bb), alloc |-> AllocOf(bb),
@@ -156,7 +177,7 @@ Verify(i, b, how, stm, hd) ==
         /\ lib' = [v \in Variants |-> StmtNext(v, IF tg THEN TagNext(v, lib[v], a, h) ELSE lib[v], obj, i)]
         /\ hist' = Append(hist, [op |-> "verify", item |-> i, kind |-> k, buf |-> b, how |-> how, sess |-> s,
                                  stm |-> stm, hd |-> hd, mem |-> MemOf(h, bb), alloc |-> AllocOf(bb), out |-> out])
-  /\ UNCHANGED <<items, kinds, done>> /\ pend' = NoPend
+  /\ UNCHANGED <<items, kinds, done, rem>> /\ pend' = NoPend
 
 Shapes == {[op |-> "prove", how |-> w, stm |-> "own", hd |-> "mem"] : w \in {"new", "inplace"}}
           \cup {[op |-> "verify", how |-> w, stm |-> st, hd |-> h] : w \in {"new", "inplace"}, st \in Stms, h \in Hds}
@@ -171,24 +192,31 @@ Direct == ~TwoPhase /\ ~done /\ Len(hist) < MaxOps /\ \E sh \in Shapes : Do(sh)
 Pick ==
   /\ TwoPhase /\ ~done /\ Len(hist) < MaxOps /\ pend = NoPend
   /\ \E sh \in Shapes : Possible(sh) /\ pend' = sh
-  /\ UNCHANGED <<heap, buf, items, lib, hist, kinds, done>>
+  /\ UNCHANGED <<heap, buf, items, lib, hist, kinds, done, rem>>
 Apply == TwoPhase /\ pend # NoPend /\ Do(pend)
 Step == Direct \/ Pick \/ Apply
 
 (* a finished history takes one last step so that Emit fires once per history (TLC evaluates   *)
 (* invariants on every candidate successor in -simulate mode)                                  *)
-Finish == ~done /\ pend = NoPend /\ Len(hist) = MaxOps /\ done' = TRUE /\ UNCHANGED <<heap, buf, items, lib, hist, kinds, pend>>
+Finish == ~done /\ pend = NoPend /\ Len(hist) = MaxOps /\ done' = TRUE /\ UNCHANGED <<heap, buf, items, lib, hist, kinds, pend, rem>>
 
 Next == Step \/ Finish
 Spec == Init /\ [][Next]_vars
 
 -----------------------------------------------------------------------------
-(* the property at design level                                               *)
-Rejected(v) == {n \in 1..Len(hist) : hist[n].op = "verify" /\ hist[n].out[v] = "rej"}
-Exposed     == {v \in Variants : Rejected(v) # {}}
+(* the remote verifier's results, item by item (rem is advanced when the item comes into being: *)
+(* the remote verifier's state depends on the items in their order and on nothing else)         *)
+Remote == rem.out
 
-(* the code as read accepts every honest verification of every history *)
-CodeSound == Rejected("code") = {}
+(* the property at design level                                               *)
+Rejected(v)       == {n \in 1..Len(hist) : hist[n].op = "verify" /\ hist[n].out[v] = "rej"}
+RemoteRejected(v) == {i \in 1..Len(items) : Remote[i][v] = "rej"}
+ExposedLocal  == {v \in Variants : Rejected(v) # {}}
+ExposedRemote == {v \in Variants : RemoteRejected(v) # {}}
+Exposed       == ExposedLocal \cup ExposedRemote
+
+(* the code as read accepts every honest verification of every history, locally and remotely *)
+CodeSound == Rejected("code") = {} /\ (done => RemoteRejected("code") = {})
 (* every verify step is an honest one and the projection the harness compares is the heap's *)
 Honest ==
   \A n \in 1..Len(hist) :
@@ -201,16 +229,19 @@ TypeOK ==
 (* Non-vacuity (-workers 1): register 10+i is set when variant i was seen exposed. *)
 VarIdx(v) == CHOOSE i \in 1..Len(AllVariants) : AllVariants[i] = v
 ASSUME \A i \in 1..Len(AllVariants) : TLCSet(10 + i, FALSE)
-Witness == \A v \in Exposed : TLCSet(10 + VarIdx(v), TRUE)
+Witness == /\ \A v \in ExposedLocal : TLCSet(10 + VarIdx(v), TRUE)
+           /\ done => \A v \in ExposedRemote : TLCSet(10 + VarIdx(v), TRUE)
 VariantsSeparated ==
   /\ PrintT(<<"VARIANTS", ToJson([i \in 1..Len(AllVariants) |-> [variant |-> AllVariants[i], exposed |-> TLCGet(10 + i)]])>>)
   /\ \A i \in 1..Len(AllVariants) : AllVariants[i] \in Variants => (TLCGet(10 + i) <=> AllVariants[i] # "code")
 
 (* catalogue rows *)
-Row == [kinds |-> kinds, steps |-> hist, exposes |-> Exposed]
+Row == [kinds |-> kinds, steps |-> hist, remote |-> Remote, exposes |-> Exposed]
+(* directed: the defect variants the history exposes do so at its last call alone, or not before the remote verifier *)
 Directed ==
-  /\ Len(hist) > 0 /\ Exposed # {}
-  /\ \A v \in Exposed : Rejected(v) = {Len(hist)}
+  /\ Len(hist) > 0
+  /\ ExposedLocal # {} \/ ExposedRemote \ {"hcmp"} # {}
+  /\ \A v \in ExposedLocal : Rejected(v) = {Len(hist)}
 Emit ==
   CASE EmitMode = "all"      -> (done => PrintT(<<"HISTORY", ToJson(Row)>>))
     [] EmitMode = "directed" -> (done /\ Directed => PrintT(<<"HISTORY", ToJson(Row)>>))
@@ -247,6 +278,7 @@ HandleRows == UNION { HRowsOf(s, c) : s \in HSystems, c \in HCurves }
 ASSUME \A s \in HSystems : \A i \in 1..Len(HRoles(s)), j \in 1..Len(HRoles(s)) :
          i < j => \E r \in HandleRows : r.sys = s /\ <<i, j>> \in r.distinct
 PrintHandles == \A r \in HandleRows : PrintT(<<"HROW", ToJson(r)>>)
-(* evaluated once, when the exploration is over *)
+(* evaluated once, when the exploration is over (Post needs -workers 1: the registers are per worker) *)
 Post == PrintHandles /\ VariantsSeparated
+PostHandles == (TLCGet(11) \in BOOLEAN) /\ PrintHandles   \* (the register keeps TLC from folding this into a constant)
 =============================================================================
